@@ -189,7 +189,8 @@ Upd(hh, pre, e, post) ==
              infl == AttSameOrigin(hh, post, e.o)
              \* left the idle list and is still alive: reserved by this request (entries discarded as closed or
              \* expired also leave the list, but their last handle is gone)
-             taken == {c \in IdleSet(hh, pre, e.o) : c \notin IdleSet(hh, post, e.o) /\ HasConn(post, c) /\ post.conn[c].live > 0}
+             taken == {c \in IdleSet(hh, pre, e.o) : /\ c \notin IdleSet(hh, post, e.o) /\ HasConn(post, c) /\ post.conn[c].live > 0
+                                                    /\ post.conn[c].live = pre.conn[c].live}     \* moved, not dropped
              res == IF taken = {} THEN 0 ELSE CHOOSE c \in taken : TRUE
              resvd == {Get(hh.reserved, q, 0) : q \in {q \in 1..NReqO(pre) : InCheckout(pre, q)}}
              oh2 == \E c \in 1..NConnO(pre) : /\ HasConn(pre, c) /\ pre.conn[c].h2 /\ pre.conn[c].st = "open"
